@@ -223,24 +223,25 @@ def Grouper.emit (g : Grouper) (st : GroupState) : Outcome Table := do
 
 /-! ### Sorter -/
 
-/-- `Record::ordering`: compare by key expressions; an evaluation error is an `Err` -/
+/-- `Record::ordering`: compare by key expressions; a key that cannot be evaluated on a row
+(e.g. a missing field) orders that row after every row that has a value, and equal to another
+row on which it fails -/
 def orderingBy (ext : Ext) (cols : List Expr) (l r : Fields) : Outcome Ordering :=
   match cols with
   | [] => .ok .eq
   | c :: cs =>
-    match evalValue ext l c with
-    | .ok lv =>
-      match evalValue ext r c with
-      | .ok rv =>
-        match Value.cmp lv rv with
-        | .eq => orderingBy ext cs l r
-        | o => .ok o
-      | .err k => .err k
-      | .panic p => .panic p
-      | .unmodelled w => .unmodelled w
-    | .err k => .err k
-    | .panic p => .panic p
-    | .unmodelled w => .unmodelled w
+    match evalValue ext l c, evalValue ext r c with
+    | .ok lv, .ok rv =>
+      match Value.cmp lv rv with
+      | .eq => orderingBy ext cs l r
+      | o => .ok o
+    | .ok _, .err _ => .ok .lt
+    | .err _, .ok _ => .ok .gt
+    | .err _, .err _ => orderingBy ext cs l r
+    | .panic p, _ => .panic p
+    | _, .panic p => .panic p
+    | .unmodelled w, _ => .unmodelled w
+    | _, .unmodelled w => .unmodelled w
 
 /-- `Record::ordering_ref` over column names -/
 def orderingRef (cols : List String) (l r : Fields) : Ordering :=
@@ -263,10 +264,36 @@ def sortCmp (ext : Ext) (cols : List Expr) (dir : SortDir) (columns : List Strin
   | .eq => orderingRef columns l r
   | o => o
 
-/-- does any comparison hit an evaluation error / unmodelled value?  (then `sort_by` gets an
-inconsistent comparator and the result is not determined by the model) -/
+/-- every sort key evaluates to a value or to an `EvalError` on every row (no panic, nothing
+outside the modelled fragment) -/
 def sortKeysOk (ext : Ext) (cols : List Expr) (rows : List Fields) : Bool :=
-  rows.all (fun r => cols.all (fun c => (evalValue ext r c).isOk))
+  rows.all (fun r => cols.all (fun c => match evalValue ext r c with
+    | .ok _ => true
+    | .err _ => true
+    | _ => false))
+
+/-- does the comparator reach an object-vs-object comparison (im::HashMap's `Ord` iterates in
+per-map hash order: not a function of the contents, so the model does not predict it)? -/
+def cmpReachesObj (ext : Ext) (cols : List Expr) (columns : List String) (l r : Fields) : Bool :=
+  let keyObj := cols.any (fun c =>
+    match evalValue ext l c, evalValue ext r c with
+    | .ok (.obj _), .ok (.obj _) => true
+    | _, _ => false)
+  let primaryEq := match orderingBy ext cols l r with
+    | .ok .eq => true
+    | _ => false
+  -- the secondary ordering walks the column list until the first difference
+  let rec walk : List String → Bool
+    | [] => false
+    | c :: cs =>
+      match Fields.get c l, Fields.get c r with
+      | some (.obj _), some (.obj _) => true
+      | a, b => if Value.cmpOpt a b == .eq then walk cs else false
+  keyObj || (primaryEq && walk columns)
+
+/-- the sort's result is a function of the rows' contents -/
+def sortDetermined (ext : Ext) (cols : List Expr) (columns : List String) (rows : List Fields) : Bool :=
+  rows.all (fun l => rows.all (fun r => !cmpReachesObj ext cols columns l r))
 
 def sortRows (ext : Ext) (cols : List Expr) (dir : SortDir) (columns : List String) (rows : List Fields) :
     List Fields :=
